@@ -285,6 +285,42 @@ func c16Judge(c *c16Case) (f *core.Failure, nontrivial bool, status string) {
 		}
 	}
 	if odd {
+		// a lone ^ or ~ is no token of the language; whatever the lexer makes
+		// of it, the tokens around it still carry exactly their own text: they
+		// follow one another without overlap, a word holds no separator
+		// character, and every byte outside the tokens is white space or the
+		// lone symbol itself
+		if !unterminated {
+			covered := make([]bool, len(q))
+			end := 0
+			for i, t := range got {
+				lo, hi := t.pos, t.pos+len(t.text)
+				quoted := t.kind == "STR" || (t.kind == "NAME" && lo >= 0 && lo < len(q) && q[lo] == '`')
+				if quoted {
+					hi += 2
+				} else if t.kind != "OP" && len(t.text) > 0 && strings.ContainsAny(t.text, " \t\n\r'\"`~^=!*+-/><&|()[],;") && len(t.text) > 1 {
+					return mk("offset-and-text", "separator-inside-word", "words free of separator characters", fmt.Sprintf("token %d of %s", i, fmtToks(got))), nontrivial, ""
+				}
+				if lo < end || hi > len(q) {
+					return mk("offset-and-text", "tokens-overlap", "tokens following one another", fmt.Sprintf("token %d of %s", i, fmtToks(got))), nontrivial, ""
+				}
+				for j := lo; j < hi; j++ {
+					covered[j] = true
+				}
+				end = hi
+			}
+			for j := 0; j < len(q); {
+				if covered[j] {
+					j++
+					continue
+				}
+				r, n := utf8.DecodeRuneInString(q[j:])
+				if !(unicode.IsSpace(r) || q[j] == '^' || q[j] == '~') {
+					return mk("offset-and-text", "byte-in-no-token", "every byte that is no white space inside a token", fmt.Sprintf("byte %d (%q) of the query is in none of %s", j, q[j], fmtToks(got))), nontrivial, ""
+				}
+				j += n
+			}
+		}
 		return nil, false, "odd-symbol(invariant-only)"
 	}
 	// sequence: kinds, texts, positions
